@@ -131,6 +131,9 @@ def run(ctx):
     # language features outside the model (classes, inheritance, import aliases, ...): real dds against plain execution only
     from . import c01x
     c01x.run_extended(ctx, res, thorough)
+    # which names of a function body are module names at all (nested scopes): implementation, model and CPython's symbol table
+    from . import c01s
+    c01s.run_scope(ctx, res, thorough)
     pipeline.close_ref()
     # the hypotheses of C01.sig_sound / memo_correct / history_correct on everything that was generated
     res.count("universe_function_versions", uc.functions)
